@@ -317,7 +317,7 @@ func coopEngine() {
 		r := coop.Run(ch, coop.Options{Adversarial: 600, FairTail: 5000}, fns...)
 		vatomic.After = nil
 		if r.Stuck {
-			run.Inconclusive("scheduler: a worker did not reach a yield point (wall-clock guard)")
+			run.Abort("scheduler: a worker did not reach a yield point (wall-clock guard); the process is abandoned")
 			return
 		}
 		c.Choices = r.Choices
